@@ -41,14 +41,133 @@ fn gen_program(w: &mut Rng, tier: Tier) -> Program {
             }
         }
     }
+    // disequalities next to the integer constraints (a quarter of the programs), some of them
+    // written twice or implied by another one: the store normalises them while Z constraints wait in it
+    if w.chance(1, 4) {
+        let n = 1 + w.below(3);
+        for _ in 0..n {
+            let v = *w.pick(&vars);
+            let g = match w.below(4) {
+                0 => G::Neq(T::V(v), T::V(*w.pick(&vars))),
+                1 => {
+                    let u = *w.pick(&vars);
+                    G::Neq(T::list(vec![T::V(v), T::V(u)]), T::list(vec![T::I(w.range(-2, 2)), T::I(w.range(-2, 2))]))
+                }
+                _ => G::Neq(T::V(v), T::I(w.range(-3, 3))),
+            };
+            if w.chance(1, 3) {
+                goals.push(g.clone());
+            }
+            goals.push(g);
+        }
+    }
+    // choice bindings: a variable bound by the clauses of a conde (distinct values per conde), so the
+    // constraints posted before it are resumed once per branch and those after it run in several states
+    if w.chance(1, 3) {
+        let n = if w.chance(1, 4) { 2 } else { 1 };
+        for _ in 0..n {
+            let v = *w.pick(&vars);
+            let m = 2 + w.below(2);
+            let mut vals: Vec<i64> = vec![];
+            while vals.len() < m {
+                let x = if w.chance(1, 4) { 0 } else { w.range(-6, 6) };
+                if !vals.contains(&x) {
+                    vals.push(x);
+                }
+            }
+            goals.push(G::Conde(vals.into_iter().map(|x| vec![G::Eq(T::V(v), T::I(x))]).collect()));
+        }
+    }
     w.shuffle(&mut goals);
     Program { nq: k, defs: vec![], body: goals }
+}
+
+fn neq_side(t: &T) -> bool {
+    match t {
+        T::V(_) | T::I(_) | T::Nil => true,
+        T::Cons(h, tl) => matches!(**h, T::V(_) | T::I(_)) && neq_side(tl),
+        _ => false,
+    }
+}
+
+/// A choice binding: conde whose clauses are single `v == n` goals on one variable, distinct n.
+fn choice(g: &G) -> Option<(VarIx, Vec<i64>)> {
+    let cs = match g {
+        G::Conde(cs) if cs.len() >= 2 && cs.len() <= 3 => cs,
+        _ => return None,
+    };
+    let mut var = None;
+    let mut vals = vec![];
+    for c in cs.iter() {
+        match c.as_slice() {
+            [G::Eq(T::V(v), T::I(n))] if var.is_none() || var == Some(*v) => {
+                var = Some(*v);
+                if vals.contains(n) {
+                    return None;
+                }
+                vals.push(*n);
+            }
+            _ => return None,
+        }
+    }
+    var.map(|v| (v, vals))
+}
+
+/// The straight-line programs of a program with choice bindings: one per combination of clauses.
+fn linearised(p: &Program) -> Vec<Program> {
+    let mut out: Vec<Vec<G>> = vec![vec![]];
+    for g in p.body.iter() {
+        match choice(g) {
+            Some((v, vals)) => {
+                let mut next = vec![];
+                for pre in out.iter() {
+                    for n in vals.iter() {
+                        let mut b = pre.clone();
+                        b.push(G::Eq(T::V(v), T::I(*n)));
+                        next.push(b);
+                    }
+                }
+                out = next;
+            }
+            None => {
+                for b in out.iter_mut() {
+                    b.push(g.clone());
+                }
+            }
+        }
+    }
+    out.into_iter().map(|body| Program { nq: p.nq, defs: vec![], body }).collect()
+}
+
+/// Does the answer lie on this straight-line path: every binding `v == n` / `n == v` of the path
+/// that came from a choice is what the answer says (checked for all var-const bindings).
+fn on_path(lin: &Program, ans: &[T]) -> bool {
+    lin.body.iter().all(|g| match g {
+        G::Eq(T::V(v), T::I(n)) | G::Eq(T::I(n), T::V(v)) => ans[*v as usize] == T::I(*n),
+        _ => true,
+    })
 }
 
 fn operand_value(t: &T, ans: &[T]) -> T {
     match t {
         T::V(v) => ans[*v as usize].clone(),
         other => other.clone(),
+    }
+}
+
+fn subst_answer(t: &T, ans: &[T]) -> T {
+    match t {
+        T::V(v) => ans[*v as usize].clone(),
+        T::Cons(h, tl) => T::Cons(Box::new(subst_answer(h, ans)), Box::new(subst_answer(tl, ans))),
+        other => other.clone(),
+    }
+}
+
+fn has_any(t: &T) -> bool {
+    match t {
+        T::Any(_) => true,
+        T::Cons(h, tl) | T::Cmp(_, h, tl) => has_any(h) || has_any(tl),
+        _ => false,
     }
 }
 
@@ -68,6 +187,14 @@ fn answer_values(term: &T, k: usize) -> Option<Vec<T>> {
 
 /// Check one constraint against the final values of its operands.
 fn judge(g: &G, ans: &[T]) -> Result<(), String> {
+    if let G::Neq(a, b) = g {
+        let (x, y) = (subst_answer(a, ans), subst_answer(b, ans));
+        return if x == y && !has_any(&x) {
+            Err(format!("{} is violated by the answer: both sides are {}", crate::show::goal(g), x.show()))
+        } else {
+            Ok(())
+        };
+    }
     let (plus, a, b, c) = match g {
         G::Plusz(a, b, c) => (true, a, b, c),
         G::Timesz(a, b, c) => (false, a, b, c),
@@ -122,7 +249,7 @@ fn solvable_in_window(p: &Program, w: i64) -> bool {
         let mut ok = true;
         for g in p.body.iter() {
             let sat = match g {
-                G::Plusz(..) | G::Timesz(..) => judge(g, &ans).is_ok(),
+                G::Plusz(..) | G::Timesz(..) | G::Neq(..) => judge(g, &ans).is_ok(),
                 G::Eq(a, b) => operand_value(a, &ans) == operand_value(b, &ans),
                 _ => true,
             };
@@ -165,7 +292,8 @@ impl Check for C19Check {
         let mut st = streams(seed, "C19", index);
         let program = gen_program(&mut st.workload, tier);
         let cfg = gen_search::sim_cfg(&mut st.schedule, 100_000);
-        Case { property: "C19".into(), oracle: "integer-arithmetic".into(), program, cfg, extra: json!({}) }
+        let dfs = st.workload.chance(1, 8);
+        Case { property: "C19".into(), oracle: "integer-arithmetic".into(), program, cfg, extra: json!({"dfs": dfs}) }
     }
 
     fn valid(&self, case: &Case) -> bool {
@@ -175,18 +303,25 @@ impl Check for C19Check {
             && case.program.body.iter().all(|g| match g {
                 G::Plusz(..) | G::Timesz(..) => true,
                 G::Eq(a, b) => matches!(a, T::V(_) | T::I(_)) && matches!(b, T::V(_) | T::I(_)),
+                G::Neq(a, b) => neq_side(a) && neq_side(b),
+                g @ G::Conde(_) => choice(g).is_some(),
                 _ => false,
             })
+            && case.program.body.iter().filter(|g| matches!(g, G::Conde(_))).count() <= 2
             && case.program.body.iter().any(|g| matches!(g, G::Plusz(..) | G::Timesz(..)))
     }
 
     fn rule(&self) -> String {
         "case = conjunction of 1-4 plusz/timesz constraints over 2-4 query variables and constants in [-6,6] (operand \
-         aliasing allowed) and 0-5 bindings (var == const, const == var, var == var), in every posting order, x (iteration \
+         aliasing allowed) and 0-5 bindings (var == const, const == var, var == var) and, in a third of the programs, one or two \
+         choice bindings (conde { v == a, v == b, .. } with distinct values: constraints posted before it are resumed once per \
+         branch) and, in a quarter, 1-3 disequalities between variables, numbers and two-element lists of them (some written \
+         twice or implied by another: the store normalises them while Z constraints wait in it), in every posting order, one case in eight as the body of a dfs block, x (iteration \
          order of run_constraints, yields). Oracle: for every answer and every constraint, with the final operand values: all \
          ground -> the equation holds; exactly two ground -> the third must be bound unless every integer works (timesz(0,r,0)); \
-         operands are integers or unbound; at most one answer; if the engine fails, brute force over [-14,14]^k must find no \
-         solution; no panic. distinct = (program, decision trace); non-trivial = an answer was judged or a failure was \
+         operands are integers or unbound; no disequality has two equal ground sides; every answer lies on one root-to-leaf path of the choices and every path has at most \
+         one answer; for a path without an answer, brute force over [-14,14]^k must find no solution of its straight-line \
+         program; no panic. distinct = (program, decision trace); non-trivial = an answer was judged or a failure was \
          confirmed by the brute force"
             .into()
     }
@@ -194,7 +329,7 @@ impl Check for C19Check {
     fn run(&self, case: &Case) -> CaseResult {
         let mut facts = Facts::default();
         let p = &case.program;
-        let run = run_program(p, &case.cfg, 8, false);
+        let run = run_program(&exec_program(case), &case.cfg, 64, false);
         facts.trace_hash = run.stats.trace_hash;
         facts.stats.push(run.stats.clone());
         match &run.end {
@@ -207,44 +342,69 @@ impl Check for C19Check {
             }
             _ => return CaseResult { verdict: Verdict::Inconclusive("budget".into()), facts },
         }
-        if run.answers.len() > 1 {
-            return CaseResult {
-                verdict: Verdict::Violation {
-                    class: "clpz-duplicate-answer".into(),
-                    detail: format!("a conjunction returned {} answers", run.answers.len()),
-                },
-                facts,
+        let paths = linearised(p);
+        let mut hits = vec![0usize; paths.len()];
+        for a in run.answers.iter() {
+            let ans = match answer_values(&a.term, p.nq as usize) {
+                Some(a) => a,
+                None => return CaseResult { verdict: Verdict::Inconclusive("malformed answer".into()), facts },
             };
+            facts.answers_compared += 1;
+            for g in p.body.iter() {
+                if let Err(e) = judge(g, &ans) {
+                    let class = if e.contains("left unbound") {
+                        "clpz-operand-left-unbound"
+                    } else if e.contains("non-integer") {
+                        "clpz-non-integer-operand"
+                    } else {
+                        "clpz-unsound-answer"
+                    };
+                    return CaseResult { verdict: Verdict::Violation { class: class.into(), detail: e }, facts };
+                }
+            }
+            let on: Vec<usize> = (0..paths.len()).filter(|i| on_path(&paths[*i], &ans)).collect();
+            match on.as_slice() {
+                [] => {
+                    return CaseResult {
+                        verdict: Verdict::Violation {
+                            class: "clpz-answer-on-no-path".into(),
+                            detail: format!("answer {} contradicts a binding of every path of the program", a.term.show()),
+                        },
+                        facts,
+                    }
+                }
+                [i] => hits[*i] += 1,
+                // two choices on one variable with a common value: the paths that pick it in both
+                // are indistinguishable only if they are the same path, so this cannot happen
+                _ => return CaseResult { verdict: Verdict::Inconclusive("ambiguous path".into()), facts },
+            }
         }
-        if run.answers.is_empty() {
-            let w = if p.nq <= 3 { 14 } else { 7 };
-            if solvable_in_window(p, w) {
+        for (i, n) in hits.iter().enumerate() {
+            if *n > 1 {
                 return CaseResult {
                     verdict: Verdict::Violation {
-                        class: "clpz-fails-although-solvable".into(),
-                        detail: "no answer, but an integer solution exists".into(),
+                        class: "clpz-duplicate-answer".into(),
+                        detail: format!("a conjunction returned {} answers (path {} of {})", n, i, paths.len()),
                     },
                     facts,
                 };
             }
-            facts.nontrivial = true;
-            return CaseResult { verdict: Verdict::Pass, facts };
-        }
-        let ans = match answer_values(&run.answers[0].term, p.nq as usize) {
-            Some(a) => a,
-            None => return CaseResult { verdict: Verdict::Inconclusive("malformed answer".into()), facts },
-        };
-        facts.answers_compared += 1;
-        for g in p.body.iter() {
-            if let Err(e) = judge(g, &ans) {
-                let class = if e.contains("left unbound") {
-                    "clpz-operand-left-unbound"
-                } else if e.contains("non-integer") {
-                    "clpz-non-integer-operand"
-                } else {
-                    "clpz-unsound-answer"
-                };
-                return CaseResult { verdict: Verdict::Violation { class: class.into(), detail: e }, facts };
+            if *n == 0 {
+                let w = if p.nq <= 3 { 14 } else { 7 };
+                if solvable_in_window(&paths[i], w) {
+                    return CaseResult {
+                        verdict: Verdict::Violation {
+                            class: "clpz-fails-although-solvable".into(),
+                            detail: format!(
+                                "no answer, but an integer solution exists (path {} of {}: {})",
+                                i,
+                                paths.len(),
+                                crate::show::program(&paths[i])
+                            ),
+                        },
+                        facts,
+                    };
+                }
             }
         }
         facts.nontrivial = true;
